@@ -303,6 +303,9 @@ func (e *Engine) lookupHarnessFunc(name string) *ssa.Function {
 var modelFuncs = map[string]string{
 	"encoding/binary.Read":      "vpmBinaryRead",
 	"strings.IndexAny":          "vpmIndexAny",
+	"crypto/sha256.Sum256":      "vpmSha256Sum256",
+	"crypto/sha1.Sum":           "vpmSha1Sum",
+	"crypto/md5.Sum":            "vpmMd5Sum",
 	"strings.ContainsAny":       "vpmContainsAny",
 	"encoding/binary.Write":     "vpmBinaryWrite",
 	"fmt.Sprintf":               "vpmSprintf",
